@@ -341,6 +341,15 @@ func vh_C19_L7_active_heartbeat_roundtrip() {
 	a, b := vPair(vAssocOpts{pickTSN: true})
 	// the answering side may already be shutting down (it still owns the association)
 	b.setState([]uint32{established, shutdownPending, shutdownSent, shutdownReceived, shutdownAckSent}[vPick(5)])
+	if vPick(2) == 1 {
+		// the asking side has data outstanding whose packet was lost (this is when the probe
+		// matters most: retransmitted data yields no samples of its own)
+		s, err := a.OpenStream(1, PayloadTypeWebRTCBinary)
+		vassert(err == nil, "open stream")
+		_, werr := s.WriteSCTP(nondetBytes(2), PayloadTypeWebRTCBinary)
+		vassert(werr == nil, "write accepted")
+		vassert(len(vWriterWake(a)) == 1 && a.inflightQueue.size() == 1, "data in flight, its packet lost")
+	}
 	a.ActiveHeartbeat()
 	var info []byte
 	nHB := 0
